@@ -13,6 +13,7 @@ mod fam_eval;
 mod fam_ext;
 mod fam_pset;
 mod fam_store;
+mod fam_validate;
 mod gen;
 mod render;
 
@@ -60,6 +61,7 @@ fn family(name: &str) -> Option<(Runner, Driver)> {
         "pset" => (fam_pset::run, fam_pset::drive),
         "ext" => (fam_ext::run, fam_ext::drive),
         "conform" => (fam_conform::run, fam_conform::drive),
+        "validate" => (fam_validate::run, fam_validate::drive),
         _ => return None,
     })
 }
